@@ -71,6 +71,7 @@ fn main() {
     }));
     let rep = match facet.as_str() {
         "C01" => facets::c01::run(&opts),
+        "C02" => facets::c02::run(&opts),
         "C03" => facets::c03::run(&opts),
         "C04" => facets::c04::run(&opts),
         "C10" => facets::c10::run(&opts),
